@@ -903,6 +903,367 @@ def depol_k_suite(ctx):
 
 
 # ---------------------------------------------------------------------------
+# run-time instantiations of the theorems of Props/C04c on the REAL code
+
+
+def _vecpos(n, order):
+    """V[i, j] = position of entry (i, j) of a 2^n x 2^n matrix in its vectorisation
+    (row: i*D+j, column: j*D+i, system: bits interleaved, column bit first, qubit 0 first)."""
+    import numpy as np
+
+    D = 2**n
+    V = np.zeros((D, D), dtype=int)
+    for i in range(D):
+        for j in range(D):
+            if order == "row":
+                V[i, j] = i * D + j
+            elif order == "column":
+                V[i, j] = j * D + i
+            else:
+                p = 0
+                for q in range(n):
+                    p = 4 * p + 2 * ((j >> (n - 1 - q)) & 1) + ((i >> (n - 1 - q)) & 1)
+                V[i, j] = p
+    return V
+
+
+def _vec(M, n, order):
+    import numpy as np
+
+    V = _vecpos(n, order)
+    out = np.zeros(V.size, dtype=complex)
+    out[V.reshape(-1)] = np.asarray(M).reshape(-1)
+    return out
+
+
+def _choi_action(C, rho, n, order):
+    """out[a, c] = sum_{b, e} C[vec(a, b), vec(c, e)] rho[b, e] (the action a Choi matrix encodes)."""
+    import numpy as np
+
+    V = _vecpos(n, order)
+    C4 = np.asarray(C)[V[:, :, None, None], V[None, None, :, :]]
+    return np.einsum("abce,be->ac", C4, np.asarray(rho))
+
+
+def _pauli_string_op(n, qubits, string):
+    import numpy as np
+
+    s = {"I": np.eye(2), "X": np.array([[0, 1], [1, 0]]), "Y": np.array([[0, -1j], [1j, 0]]), "Z": np.diag([1.0, -1.0])}
+    m = np.array([[1.0 + 0j]])
+    for c in string:
+        m = np.kron(m, s[c])
+    return _embed(n, list(qubits), m)
+
+
+SUPER_HELPERS = "\n".join(inspect.getsource(f) for f in (_vecpos, _vec, _choi_action, _pauli_string_op))
+
+
+def cplx_rho(rng, n):
+    d = 2**n
+    return np.array([[complex(round(rng.uniform(-1, 1), 3), round(rng.uniform(-1, 1), 3)) for _ in range(d)] for _ in range(d)])
+
+
+def nonascending(rng, n, k):
+    """an ordered k-tuple of qubits of an n-qubit register that is not ascending (when k >= 2)."""
+    while True:
+        t = tuple(rng.sample(range(n), k))
+        if k < 2 or list(t) != sorted(t):
+            return t
+
+
+def readout_suite(ctx):
+    """T04_readout_gates_are_family / T04_readout_gram_diag / T04_readout_tp_iff_row_stochastic on the
+    real constructor: the channel's own gates are the family sqrt(P[k,j]) |j><k| on the given ordered
+    qubits, sum K^dagger K = diag(row sums of P) (checked at 1e-12 on rows that deviate from 1 inside
+    the constructor's tolerance: distinguishes diag(row sums) from the identity), non-stochastic P is
+    refused (or else must still be trace preserving), execution = own Kraus map and keeps the trace on
+    k <= 3 qubits in non-ascending order."""
+    nb = qgates.np_backend()
+    rng = ctx.rng
+    name = "C04_search_readout"
+    bad = 0
+    cases = []
+    for k in (1, 2, 3):
+        for n in range(k, (5 if ctx.thorough else 4)):
+            reps = (3 if k < 3 else 1) if not ctx.thorough else (4 if k < 3 else 2)
+            for _ in range(reps):
+                cases.append((k, n, nonascending(rng, n, k)))
+    for k, n, qs in cases:
+        d = 2**k
+        P = np.array([[rng.random() + 0.01 for _ in range(d)] for _ in range(d)])
+        kind = rng.choice(["stochastic", "deterministic-row", "within-tolerance", "zero-entries"])
+        if kind == "deterministic-row":
+            P[rng.randrange(d)] = np.eye(d)[rng.randrange(d)]
+        if kind == "zero-entries":
+            for r in range(d):
+                P[r, rng.randrange(d)] = 0.0
+        P = P / P.sum(axis=1, keepdims=True)
+        if kind == "within-tolerance":  # rows summing to 1 +- 4e-9: accepted by the constructor
+            P = P * (1 + np.array([[rng.choice([-4e-9, 4e-9, 0.0])] for _ in range(d)]))
+        expr = f"gates.ReadoutErrorChannel({qs!r}, {arr_expr(P)})"
+        ctx.case(("readout", k, n, qs, kind))
+        ctx.stat(f"readout_k{k}:{kind}")
+        try:
+            ch = mk(expr)
+            mats = [np.asarray(g.matrix(nb)) for g in ch.gates]
+            full = [_embed(n, list(g.qubits), m) for g, m in zip(ch.gates, mats)]
+        except Exception as e:  # noqa: BLE001
+            report_raise(ctx, expr, n, "constructor", e, name)
+            bad += 1
+            continue
+        rows = P.sum(axis=1)
+        # the family: one operator per (j, k), a single entry sqrt(P[k, j]) at [j, k], on qs in the given order
+        fam = sorted((tuple(np.round(_embed(n, list(qs), np.sqrt(P[kk, j]) * np.outer(np.eye(d)[j], np.eye(d)[kk])).reshape(-1), 12))) for j in range(d) for kk in range(d))
+        got = sorted(tuple(np.round(np.asarray(c) * f, 12).reshape(-1)) for c, f in zip(ch.coefficients, full))
+        G = sum(c * f.conj().T @ f for c, f in zip(ch.coefficients, full))
+        ok_family = len(full) == d * d and np.allclose(np.array(fam), np.array(got), atol=1e-12)
+        ok_gram = np.allclose(G, _embed(n, list(qs), np.diag(rows)), atol=1e-12, rtol=0)
+        if not (ok_family and ok_gram):
+            bad += 1
+            ctx.fail(f"readout:operators:k{k}", f"{expr} on {n} qubits: the channel's own operators are not sqrt(P[k,j]) |j><k| on {qs} / sum K^dagger K != diag(row sums of P)",
+                     replay(expr, n, np.eye(2**n),
+                            f"P = np.array({P.tolist()})\nfull = [c * _embed(n, list(g.qubits), np.asarray(g.matrix(nb))) for c, g in zip(ch.coefficients, ch.gates)]\n"
+                            "G = sum(f.conj().T @ f for f in full)\n"
+                            f"assert np.allclose(G, _embed(n, {list(qs)!r}, np.diag(P.sum(axis=1))), atol=1e-12, rtol=0), np.abs(G - _embed(n, {list(qs)!r}, np.diag(P.sum(axis=1)))).max()\n"
+                            f"d = {d}\nfam = sorted(tuple(np.round(_embed(n, {list(qs)!r}, np.sqrt(P[k, j]) * np.outer(np.eye(d)[j], np.eye(d)[k])).reshape(-1), 12)) for j in range(d) for k in range(d))\n"
+                            "got = sorted(tuple(np.round(f, 12).reshape(-1)) for f in full)\nassert np.allclose(np.array(fam), np.array(got), atol=1e-12)"),
+                     expected=str(np.round(rows, 12).tolist()), observed=str(np.round(np.diag(G).real, 12).tolist())[:600], broken=[name])
+            continue
+        # executed map: its own Kraus map, trace kept (row-stochastic within 4e-9)
+        rho = cplx_rho(rng, n)
+        try:
+            ex = _execute(mk(expr), rho, n, nb)
+        except Exception as e:  # noqa: BLE001
+            report_raise(ctx, expr, n, "execution", e, name)
+            bad += 1
+            continue
+        km = sum(f @ rho @ f.conj().T for f in full)
+        if not np.allclose(ex, km, atol=TOL) or abs(np.trace(ex) - np.trace(rho)) > 1e-7:
+            bad += 1
+            ctx.fail(f"readout:exec:k{k}", f"{expr} on {n} qubits: execution differs from the Kraus map of sqrt(P[k,j]) |j><k| / changes the trace",
+                     replay(expr, n, rho, "out = _execute(ch, rho, n, nb)\nref = _kraus_map(mk(), rho, n, nb)\n"
+                            "assert np.allclose(out, ref, atol=1e-9) and abs(np.trace(out) - np.trace(rho)) < 1e-7, (np.abs(out - ref).max(), np.trace(out) - np.trace(rho))"),
+                     broken=[name])
+    # the other direction: rows that do not sum to one
+    for k in (1, 2):
+        for dev in (-0.5, -1e-3, 1e-3, 0.7):
+            d = 2**k
+            n = k + 1
+            qs = nonascending(rng, n, k)
+            P = np.array([[rng.random() + 0.01 for _ in range(d)] for _ in range(d)])
+            P = P / P.sum(axis=1, keepdims=True)
+            P[rng.randrange(d)] *= 1 + dev
+            expr = f"gates.ReadoutErrorChannel({qs!r}, {arr_expr(P)})"
+            ctx.case(("readout-nonstochastic", k, dev))
+            ctx.stat("readout_nonstochastic")
+            try:
+                ch = mk(expr)
+            except ValueError:
+                continue  # refused: nothing is executed
+            except Exception as e:  # noqa: BLE001
+                report_raise(ctx, expr, n, "constructor", e, name)
+                bad += 1
+                continue
+            rho = cplx_rho(rng, n)
+            ex = _execute(ch, rho, n, nb)
+            if abs(np.trace(ex) - np.trace(rho)) > TOL:
+                bad += 1
+                ctx.fail(f"readout:non-stochastic-accepted:k{k}", f"{expr}: a transition matrix whose rows do not sum to one is accepted and the executed map changes the trace",
+                         replay(expr, n, rho, "out = _execute(ch, rho, n, nb)\nassert abs(np.trace(out) - np.trace(rho)) < 1e-9, (np.trace(out), np.trace(rho))"),
+                         expected=str(np.trace(rho)), observed=str(np.trace(ex)), broken=[name])
+    ctx.ob(name, bad == 0, "search", f"{bad} failures" if bad else "")
+    ctx.notes.append(f"readout (instantiates T04_readout_*): {len(cases)} real ReadoutErrorChannel objects on k<=3 qubits in non-ascending order: own operators = sqrt(P[k,j])|j><k| family, "
+                     "sum K^dagger K = diag(row sums) at 1e-12 (rows within the constructor's tolerance of 1), execution = Kraus map, trace; non-stochastic P refused or trace preserving")
+
+
+def pauli_k_suite(ctx):
+    """T04_pauli_string_unitary / T04_pauli_channel_trace_preserved / T04_pauli_channel_unital on the
+    real PauliNoiseChannel, k = 1..3 qubits in non-ascending order: every own operator is the Pauli
+    string with letter t on qubits[t] (given order) and unitary; coefficient_sum = sum of the
+    coefficients; the executed map is sum_s p_s P_s rho P_s + (1 - sum p) rho built independently from
+    the strings, keeps the trace of a complex non-Hermitian rho, fixes the identity."""
+    nb = qgates.np_backend()
+    rng = ctx.rng
+    name = "C04_search_pauli_k"
+    bad = 0
+    cases = []
+    for k in (1, 2, 3):
+        for n in range(k, (5 if ctx.thorough else 4)):
+            for _ in range((2 if k < 3 else 1) if not ctx.thorough else 3):
+                cases.append((k, n, nonascending(rng, n, k)))
+    for k, n, qs in cases:
+        strs = ["".join(s) for s in itertools.product("IXYZ", repeat=k)]
+        chosen = rng.sample(strs, rng.randint(1, min(5, len(strs))))
+        if rng.random() < 0.3:
+            chosen.append(rng.choice(chosen))  # a repeated string
+        # strings that tell the qubits apart (different letters at different positions)
+        if k >= 2 and rng.random() < 0.7:
+            chosen[0] = "".join(rng.sample("XYZ", min(k, 3))) if k <= 3 else chosen[0]
+        w = [rng.random() for _ in range(len(chosen) + 1)]
+        if rng.random() < 0.3:
+            w[-1] = 0.0
+        ps = [round(x / sum(w), 6) for x in w[:-1]]
+        if sum(ps) > 1:
+            ps[-1] = max(0.0, round(1 - sum(ps[:-1]), 6))
+        ops = ", ".join(f"({s!r}, {p!r})" for s, p in zip(chosen, ps))
+        expr = f"gates.PauliNoiseChannel({qs!r}, [{ops}])"
+        ctx.case(("pauli_k", k, n, qs, tuple(chosen)))
+        ctx.stat(f"pauli_k{k}:n{n}")
+        rho = cplx_rho(rng, n)
+        try:
+            ch = mk(expr)
+            own = [_embed(n, list(g.qubits), np.asarray(g.matrix(nb))) for g in ch.gates]
+            ex = _execute(mk(expr), rho, n, nb)
+            exI = _execute(mk(expr), np.eye(2**n) / 2**n, n, nb)
+        except Exception as e:  # noqa: BLE001
+            report_raise(ctx, expr, n, "execution", e, name)
+            bad += 1
+            continue
+        spec = [_pauli_string_op(n, qs, s) for s in chosen]
+        ok_ops = len(own) == len(spec) and all(np.array_equal(a, b) for a, b in zip(own, spec))
+        ok_unit = all(np.allclose(a.conj().T @ a, np.eye(2**n), atol=1e-12) for a in own)
+        ok_csum = abs(ch.coefficient_sum - sum(ps)) < 1e-12 and np.allclose(np.asarray(ch.coefficients, dtype=float), ps, atol=0)
+        ref = (1 - sum(ps)) * rho + sum(p * S @ rho @ S.conj().T for p, S in zip(ps, spec))
+        ok_exec = np.allclose(ex, ref, atol=TOL)
+        ok_tr = abs(np.trace(ex) - np.trace(rho)) < TOL
+        ok_unital = np.allclose(exI, np.eye(2**n) / 2**n, atol=TOL)
+        if not (ok_ops and ok_unit and ok_csum and ok_exec and ok_tr and ok_unital):
+            bad += 1
+            what = ("own operators are not the Pauli strings on the qubits in the given order" if not ok_ops else
+                    "an own operator is not unitary" if not ok_unit else "coefficient_sum != sum of the probabilities" if not ok_csum else
+                    "execution differs from sum_s p_s P_s rho P_s + (1 - sum p) rho" if not ok_exec else
+                    "execution changes the trace" if not ok_tr else "the identity is not a fixed point")
+            ctx.fail(f"pauli-k:{'operators' if not (ok_ops and ok_unit and ok_csum) else 'exec'}:k{k}", f"{expr} on {n} qubits: {what}",
+                     replay(expr, n, rho, SUPER_HELPERS + f"\nstrs = {chosen!r}\nps = {ps!r}\nspec = [_pauli_string_op(n, {list(qs)!r}, s) for s in strs]\n"
+                            "own = [_embed(n, list(g.qubits), np.asarray(g.matrix(nb))) for g in ch.gates]\n"
+                            "assert len(own) == len(spec) and all(np.array_equal(a, b) for a, b in zip(own, spec)), 'operators'\n"
+                            "assert all(np.allclose(a.conj().T @ a, np.eye(2**n), atol=1e-12) for a in own), 'unitary'\n"
+                            "assert abs(ch.coefficient_sum - sum(ps)) < 1e-12, 'coefficient_sum'\n"
+                            "out = _execute(mk(), rho, n, nb)\nref = (1 - sum(ps)) * rho + sum(p * S @ rho @ S.conj().T for p, S in zip(ps, spec))\n"
+                            "assert np.allclose(out, ref, atol=1e-9), np.abs(out - ref).max()\nassert abs(np.trace(out) - np.trace(rho)) < 1e-9\n"
+                            "assert np.allclose(_execute(mk(), np.eye(2**n) / 2**n, n, nb), np.eye(2**n) / 2**n, atol=1e-9), 'unital'"),
+                     expected=str(np.round(ref, 6).tolist())[:800], observed=str(np.round(ex, 6).tolist())[:800], broken=[name])
+    ctx.ob(name, bad == 0, "search", f"{bad} failures" if bad else "")
+    ctx.notes.append(f"k-qubit Pauli noise (instantiates T04_pauli_*): {len(cases)} real PauliNoiseChannel objects, k<=3 qubits in non-ascending order of n<=" + ("4" if ctx.thorough else "3")
+                     + ": own operators = strings on the given qubit order, unitary, coefficient_sum, execution = spec built from the strings, trace of non-Hermitian rho, unital")
+
+
+def liouville_exec_suite(ctx, insts, users):
+    """T04_liouville_executes / T04_choi_executes on the real code: for a fresh channel object
+    `to_liouville(nqubits=n, order) @ vec(rho) == vec(execute(rho))` (row, column; system where the API
+    offers it) and the Choi action of `to_choi(nqubits=n, order)` (row, column, system) is the executed
+    state, for random complex NON-Hermitian rho; every class, user channels with complex operators,
+    extra 3-qubit channels on non-ascending targets.  Exact tie of the theorem's left-hand side:
+    the model's `liouvilleOf (choiTerms ch) . vec(rho)` (driver LEXEC) == the real execution on
+    Gaussian-integer operators / dyadic probabilities, n <= 3."""
+    nb = qgates.np_backend()
+    rng = ctx.rng
+    name = "C04_search_liouville_exec"
+    nprng = np.random.default_rng(rng.randrange(2**31))
+    pool = {}
+    for it in insts + users:
+        cls, reg, expr, n, _ = it
+        if n <= 3:
+            pool.setdefault((cls, reg, n), []).append(it)
+    chosen = []
+    for key in sorted(pool):
+        chosen += rng.sample(pool[key], min(len(pool[key]), (2 if key[2] <= 2 else 1) if not ctx.thorough else 3))
+    # extra: genuinely complex operators on non-ascending targets of a 3-qubit register
+    for _ in range(8 if ctx.thorough else 4):
+        tl = [nonascending(rng, 3, rng.choice([2, 2, 3])), tuple(rng.sample(range(3), 1))]
+        mats = [np.round(nprng.normal(size=(2**len(t), 2**len(t))) + 1j * nprng.normal(size=(2**len(t), 2**len(t))), 3) for t in tl]
+        chosen.append(("KrausChannel", ":complex3", f"gates.KrausChannel({tl!r}, [{', '.join(arr_expr(m) for m in mats)}])", 3, []))
+        us = [np.linalg.qr(nprng.normal(size=(2**len(t), 2**len(t))) + 1j * nprng.normal(size=(2**len(t), 2**len(t))))[0] for t in tl]
+        ps = [round(rng.uniform(0, 0.5), 6) for _ in tl]
+        chosen.append(("UnitaryChannel", ":complex3", f"gates.UnitaryChannel({tl!r}, [{', '.join(f'({p!r}, {arr_expr(u)})' for p, u in zip(ps, us))}])", 3, []))
+    bad = 0
+    n_sys = 0
+    for cls, reg, expr, n, _ in chosen:
+        rho = cplx_rho(rng, n)
+        try:
+            ex = _execute(mk(expr), rho, n, nb)
+        except Exception as e:  # noqa: BLE001
+            report_raise(ctx, expr, n, "execution", e, name)
+            bad += 1
+            continue
+        ctx.case(("liouville-exec", expr[:80], n))
+        ctx.stat(f"liouville_exec_n{n}")
+        for order in ("row", "column", "system"):
+            for view in ("to_liouville", "to_choi"):
+                call = f"{view}(nqubits=n, order={order!r})"
+                try:
+                    M = np.asarray(getattr(mk(expr), view)(nqubits=n, order=order))
+                except NotImplementedError:
+                    continue  # this order is not offered for this representation
+                except Exception as e:  # noqa: BLE001
+                    bad += 1
+                    ctx.fail(f"liouville-exec-raise:{cls}{reg}:{view}", f"{expr}.{call} raised {type(e).__name__}: {e}",
+                             replay(expr, n, rho, f"ch.{call}"), broken=[name])
+                    continue
+                if order == "system":
+                    n_sys += 1
+                if view == "to_liouville":
+                    got = M @ _vec(rho, n, order)
+                    ref = _vec(ex, n, order)
+                    body = f"out = np.asarray(ch.{call}) @ _vec(rho, n, {order!r})\nref = _vec(_execute(mk(), rho, n, nb), n, {order!r})\n"
+                else:
+                    got = _choi_action(M, rho, n, order)
+                    ref = ex
+                    body = f"out = _choi_action(np.asarray(ch.{call}), rho, n, {order!r})\nref = _execute(mk(), rho, n, nb)\n"
+                if got.shape != ref.shape or not np.allclose(got, ref, atol=TOL):
+                    bad += 1
+                    ctx.fail(f"liouville-exec:{cls}{reg}:{view}", f"{expr} on {n} qubits: {call} does not describe the executed map ({'L @ vec(rho) != vec(executed state)' if view == 'to_liouville' else 'Choi action != executed state'})",
+                             replay(expr, n, rho, SUPER_HELPERS + "\n" + body + "assert np.allclose(out, ref, atol=1e-9), np.abs(out - ref).max()"),
+                             expected=str(np.round(ref, 6).tolist())[:800], observed=str(np.round(got, 6).tolist())[:800], broken=[name])
+    ctx.ob(name, bad == 0, "search", f"{bad} failures" if bad else "")
+
+    # exact: the model's left-hand side against the real execution
+    lines, meta = [], []
+    for _ in range(24 if ctx.thorough else 10):
+        n = rng.choice([1, 2, 3, 3])
+        cnt = rng.randint(1, 3)
+        tl = [nonascending(rng, n, rng.randint(1, min(n, 2))) for _ in range(cnt)]
+        mats = [rand_int_matrix(rng, len(t)) for t in tl]
+        rho = int_rho(rng, n)
+        col = rng.randint(0, 1)
+        if rng.random() < 0.5:
+            expr = f"gates.KrausChannel({tl!r}, [{', '.join(arr_expr(m) for m in mats)}])"
+            terms = " ".join(f"1 0 {len(t)} {' '.join(map(str, t))} {gi_tokens(m)}" for t, m in zip(tl, mats))
+            line, scale = f"GLEXEC {n} {col} 0 0 0 {len(tl)} {terms} {gi_tokens(rho)}", 1
+        else:
+            num = [rng.randint(0, 5) for _ in tl]
+            if rng.random() < 0.25:
+                num[-1] = 16 - sum(num[:-1])
+            ops = ", ".join(f"({a}/16, {arr_expr(m)})" for a, m in zip(num, mats))
+            expr = f"gates.UnitaryChannel({tl!r}, [{ops}])"
+            terms = " ".join(f"{a} 0 {len(t)} {' '.join(map(str, t))} {gi_tokens(m)}" for a, t, m in zip(num, tl, mats))
+            c0 = 16 - sum(num)
+            line, scale = f"GLEXEC {n} {col} {1 if c0 > 0 else 0} {c0} 0 {len(tl)} {terms} {gi_tokens(rho)}", 16
+        try:
+            real = _execute(mk(expr), rho, n, nb)
+        except Exception as e:  # noqa: BLE001
+            report_raise(ctx, expr, n, "execution", e, "C04_corr_lexec")
+            continue
+        lines.append(line)
+        meta.append((expr, n, rho, real, scale, col))
+        ctx.stat("lexec_exact")
+    outs = run_driver(lines, driver=DRIVER)
+    bad2 = 0
+    for (expr, n, rho, real, scale, col), out in zip(meta, outs):
+        model = parse_gi(out).reshape(2**n, 2**n)
+        ctx.case(("lexec", expr[:80], n, col))
+        if not np.array_equal(real * scale, model):
+            bad2 += 1
+            exp = (model / scale).tolist()
+            ctx.fail("lexec:" + expr.split("(")[0].replace("gates.", ""), f"{expr} on {n} qubits: the real execution differs from the model's to_liouville . vec(rho) ({'column' if col else 'row'} order)",
+                     replay(expr, n, rho, f"out = _execute(ch, rho, n, nb)\nexpected = np.array({exp})\nassert np.allclose(out, expected, atol=1e-9), np.abs(out - expected).max()"),
+                     expected=str(exp)[:800], observed=str(real.tolist())[:800], broken=["C04_corr_lexec"])
+    ctx.ob("C04_corr_lexec", bad2 == 0, "correspondence", f"{bad2} disagreements" if bad2 else "")
+    ctx.notes.append(f"to_liouville / to_choi describe the executed map (instantiates T04_liouville_executes, T04_choi_executes): {len(chosen)} real channel objects (every class, complex user channels, "
+                     f"3-qubit non-ascending targets), complex non-Hermitian rho, orders row/column (+ system where offered: {n_sys} views); model LEXEC vs real execution exact on {len(lines)} integer cases")
+
+
+# ---------------------------------------------------------------------------
 
 
 def reuse_suite(ctx, insts):
@@ -973,6 +1334,9 @@ def run(ctx):
     views_suite(ctx, insts, users)
     query_suite(ctx, insts, users)
     reuse_suite(ctx, insts)
+    readout_suite(ctx)
+    pauli_k_suite(ctx)
+    liouville_exec_suite(ctx, insts, users)
     ctx.assumptions += [
         "complete positivity is structural in the model (non-negative combination of K rho K^dagger); on the real code it is checked numerically (Choi matrix of the executed map PSD)",
         "depolarizing fast path = Pauli-twirl Kraus map is proved for every k and every ordered duplicate-free tuple (T04_depolarizing_fast_eq_kraus_full_proved); both sides are tied exactly to the real code for k<=3 on every ordered tuple of n<=4 (C04_corr_depol_k)",
